@@ -60,6 +60,10 @@ Judge(ev) ==
       [] ev.op = "dupsym" ->
             \* a unit symbol already used by another type is rejected, and the old unit still round-trips
             J(ev.obs.rejected /\ ev.obs.roundtrip)
+      [] ev.op = "latesym" ->
+            \* text naming an undeclared symbol is rejected; once a unit is declared under that symbol the same text
+            \* is a quantity in that unit (generic factory, typed factory, and with an explicit other unit)
+            J(ev.obs.first_rejected /\ ev.obs.parses /\ ev.obs.typed /\ ev.obs.strunit)
       [] ev.op = "strunit" ->
             \* Quantity("a sym", other unit) = parse, then convert (scalable types)
             LET s == Lim(ev.codes)  c == Classify(s, "Quantity") IN
